@@ -512,7 +512,7 @@ def make_global_vars(case, cfgdir):
 _DEFAULT = object()
 
 
-def make_config(case, base_dir, cfgdir, root=None, part=None, context=_DEFAULT, ctx_pool=None):
+def make_config(case, base_dir, cfgdir, root=None, part=None, context=_DEFAULT, ctx_pool=None, root_name=None):
     import taskchain
     rf = case['files'][case['root'] if root is None else root]
     path = file_path(cfgdir, rf)
@@ -539,4 +539,6 @@ def make_config(case, base_dir, cfgdir, root=None, part=None, context=_DEFAULT, 
             objs.append(taskchain.Config(Path(base_dir), up, namespace=u.get('ns') or None, global_vars=gv))
         data['uses'] = objs
         return taskchain.Config(Path(base_dir), name=rf['name'].split('/')[-1], data=data, global_vars=gv, context=ctx)
+    if root_name is not None:
+        kw['name'] = root_name    # an explicit config name instead of the file's stem
     return taskchain.Config(Path(base_dir), fp, global_vars=make_global_vars(case, cfgdir), context=ctx, **kw)
